@@ -66,6 +66,8 @@ func baseOf(t reflect.Type) (string, string, int) {
 		return "(BCustom CUuid)", "cuuid", 0
 	case nullStrType:
 		return "(BCustom CNull)", "cnull", 0
+	case consentType:
+		return "(BCustom CTri)", "ctri", 0
 	}
 	switch t.Kind() {
 	case reflect.Int, reflect.Int64:
@@ -841,6 +843,9 @@ func genValue(r *vh.Rng, t reflect.Type, implicitZero bool, hist func(string)) r
 			v.Set(reflect.ValueOf(sql.NullString{String: r.Pick(strPool), Valid: true}))
 		}
 		return v
+	case consentType:
+		v.SetInt(int64([]Consent{No, Yes, Unanswered, Unanswered}[r.Intn(4)]))
+		return v
 	case ipType:
 		switch r.Intn(4) {
 		case 0: // nil: NULL
@@ -1280,6 +1285,8 @@ func runCase(run *vh.Run, schema *sqlgen.Schema, idx int, c Case) *obs {
 			excluded[i] = "pointer-to-nil-slice"
 		case isPtrField && f.Kind() != reflect.Ptr && f.Type() == nullStrType && !f.Interface().(sql.NullString).Valid:
 			excluded[i] = "pointer-to-invalid-nullstring"
+		case isPtrField && f.Kind() != reflect.Ptr && f.Type() == consentType && f.Interface().(Consent) == Unanswered:
+			excluded[i] = "pointer-to-null-image"
 		case ob.descs[i].kind == "uint" && f.Kind() != reflect.Ptr && f.Uint() > math.MaxInt64:
 			excluded[i] = "uint64-above-int64"
 		case f.Kind() != reflect.Ptr && f.Type() == timeType:
@@ -1347,7 +1354,7 @@ func runCase(run *vh.Run, schema *sqlgen.Schema, idx int, c Case) *obs {
 					// back unchanged, as the protobuf path or a driver that does not convert would (model: PProto)
 					s, h = dv, &how{col, "PProto"}
 					run.Hist("repr:passthrough/PProto")
-					if excluded[i] == "pointer-to-nil-slice" || excluded[i] == "pointer-to-invalid-nullstring" {
+					if excluded[i] == "pointer-to-nil-slice" || excluded[i] == "pointer-to-invalid-nullstring" || excluded[i] == "pointer-to-null-image" {
 						inDomain = false
 						if b, isB := dv.([]byte); isB && b == nil {
 							h = nil // []byte(nil) inside a driver.Value: the model's DBytes "" is handed back as an empty slice
